@@ -50,6 +50,10 @@ func (r *Registry) Add(soyfile *ast.SoyFileNode) error {
 			continue
 		}
 
+		if _, ok := r.sourceByTemplateName[tn.Name]; ok {
+			return fmt.Errorf("template %v is defined more than once", tn.Name)
+		}
+
 		// Technically every template requires soydoc, but having to add empty
 		// soydoc just to get a template to compile is just stupid.  (There is a
 		// separate data ref check to ensure any variables used are declared as
